@@ -102,3 +102,12 @@ claim(
     "abstract interpretation to rational normal forms + degree (homogeneity) domain; symbolic derivative for cross-source independence; syntax-tree def-use rule",
     "DESIGN.md §5 C10",
 )
+
+claim(
+    "C16",
+    "other",
+    "Decides the reduction formulas by interpreting every detector update() twice on arrays of free symbolic entries (fields, cell-volume and face-area weights) for several concrete region shapes incl. size-one axes, resolved and reduced, and comparing the reduced record as a polynomial identity with the weighted mean / sum formed from the resolved record: field and phasor records = sum(v*w)/sum(w) per frequency and component; energy = sum(density*w) with density = 1/2 sum_c(|E_c|^2/inv_eps_c+|H_c|^2/inv_mu_c); Poynting record = E x conj(H), reduced = sum(S*area), '-' negates, single component = propagation component; closed surface = sum over active axes of (+last - first face) of S_a*area_a, 'inward' negates; inverse phasor detectors subtract what forward ones add; propagation-axis decision tables (fixed axis incl. 0 / unique size-one axis / error); face-area weight helper on resolved and uniform grids. Holds for all inputs of the interpreted shapes; summation order / round-off not decided.",
+    TB + "; sa/ndarr.py model of sum/mean/take/reshape/cross/stack on concrete-shape arrays; size-uniformity of those reductions",
+    "abstract interpretation on concrete-shape arrays of free symbols; polynomial identity between reduced and resolved records; finite decision tables",
+    "DESIGN.md §5 C16",
+)
